@@ -56,14 +56,14 @@ def corpus() -> list[dict]:
         _sched(1, 0, 1, "0", r2), _sched(2, 1, 2, "0", r2), {"op": "settle"}, _notify(0, 1, "0", S.RUNNING),
         _notify(0, 1, "0", S.COMPLETED), _notify(0, 1, "0", S.COMPLETED), {"op": "settle"},
         _notify(1, 2, "0", S.RUNNING), _notify(1, 2, "0", S.FAILED), {"op": "settle"}]})
-    # 3. binary floats: 0.1 + 0.2 then 0.3 on a 0.3-core location
+    # 3. binary floats: jobs of 0.1 and 0.3 cores on a 0.4-core location leave 5.55e-17 reserved; a 0.4-core job then never fits
     dec = {"deployments": [{"name": "d0", "wraps": None, "locs": [
-        {"name": "d0l0", "hw": _hw(0.3, 4.0, [["/", "/", 10.0, ["/w/out", "/w/tmp"], None]]), "slots": None, "wraps": None}]}],
+        {"name": "d0l0", "hw": _hw(0.4, 4.0, [["/", "/", 10.0, ["/w/out", "/w/tmp"], None]]), "slots": None, "wraps": None}]}],
         "sizes": {"d0": {}}, "targets": [{"dep": "d0", "locations": 1}]}
     out.append({"name": "float-residue", "class": "decimal", "cfg": dec, "seed": 3, "ops": [
-        _sched(1, 0, 1, "0", _hw(0.1, 0.0, [])), _sched(2, 1, 2, "0", _hw(0.2, 0.0, [])), {"op": "settle"},
+        _sched(1, 0, 1, "0", _hw(0.1, 0.0, [])), {"op": "settle"}, _sched(2, 1, 2, "0", _hw(0.3, 0.0, [])), {"op": "settle"},
         _notify(0, 1, "0", S.RUNNING), _notify(1, 2, "0", S.RUNNING), _notify(0, 1, "0", S.COMPLETED),
-        _notify(1, 2, "0", S.COMPLETED), {"op": "settle"}, _sched(3, 2, 3, "0", _hw(0.3, 0.0, [])), {"op": "settle"}]})
+        _notify(1, 2, "0", S.COMPLETED), {"op": "settle"}, _sched(3, 2, 3, "0", _hw(0.4, 0.0, [])), {"op": "settle"}]})
     # 4. two containers stacked on one host
     host = _hw(8.0, 8.0, [["/", "/", 100.0, ["/host/d1", "/host/d1/out", "/host/d1/tmp"], None]])
     cont = _hw(4.0, 4.0, [["/", "/", 10.0, [], None], ["/w", "/w", 20.0, ["/w/out", "/w/tmp"], "/host/d1"]])
@@ -150,10 +150,10 @@ def causes(world: H.World, cfg: dict, cls: str, upto: int | None = None, exact_d
     log = world.log if upto is None else world.log[:upto]
     if cls == "decimal" and (not exact_domain or _tiny_negative_raised(log)):
         return "float"
-    if any(e.get("stale_connector") for e in log if e["ev"] == "notify"):
-        return "stale-connector"
     if not H.history_conforms(world, upto)[0]:
         return "out-of-protocol"
+    if any(e.get("stale_connector") for e in log if e["ev"] == "notify"):
+        return "stale-connector"
     if feats["shared_inner"]:
         return "shared-inner"
     if feats["hetero_multi"]:
